@@ -282,7 +282,7 @@ def _jobs(tier):
         for qb in itertools.product(range(8), repeat=1 if tier == "quick" else 2):
             js.append({"h": "c04.merge", "cfg": {"qa": list(qa), "qb": list(qb)}, "opts": {"cost": 300, "witnesses": 1}})
     for qs in ([0, 1, 2, 3, 4, 5, 6, 7], [0, 0, 0, 0, 0, 1, 1, 1], [7, 7, 7, 7, 0, 0, 0, 0], [3, 3, 3, 5, 5, 5, 7, 7], [6, 6, 7, 7, 0, 0, 1, 1]):
-        js.append({"h": "c04.full", "cfg": {"qs": qs, "extra": 2}, "opts": {"cost": 5000, "witnesses": 1, "max_seconds": 900}})
+        js.append({"h": "c04.full", "cfg": {"qs": qs, "extra": 2}, "opts": {"cost": 5000, "witnesses": 1, "max_seconds": 240}})
     for qa in range(8):
         for qb in (qa, (qa + 1) % 8, (qa + 7) % 8):
             js.append({"h": "c04.wrappers", "cfg": {"qa": qa, "qb": qb}})
